@@ -220,6 +220,7 @@ type E1Mode struct {
 	ServeP      float64
 	Catalog     bool
 	CloserP     float64 // probability that a duplex rpc gets a concurrent closer task
+	StormP      float64 // probability of the "unary storm" program family
 }
 
 func e1ModeFor(prop string) E1Mode {
@@ -228,13 +229,13 @@ func e1ModeFor(prop string) E1Mode {
 	case "C01":
 		m.Duplex, m.BigP, m.SmallNet, m.MaxRPCs, m.CloserP = 0.5, 0.3, 0.4, 3, 0.25
 	case "C02":
-		m.MaxRPCs, m.MaxTasks, m.Misbehave, m.CancelP, m.ErrP = 6, 3, 0.4, 0.35, 0.3
+		m.MaxRPCs, m.MaxTasks, m.Misbehave, m.CancelP, m.ErrP, m.OnlyUnaryP, m.StormP = 6, 3, 0.4, 0.35, 0.3, 0.2, 0.25
 	case "C04":
 		m.MaxRPCs, m.CancelP, m.Duplex, m.StallP, m.SmallNet, m.Misbehave, m.CloserP = 2, 0.9, 0.6, 0.5, 0.5, 0.2, 0.6
 	case "C05":
 		m.MaxRPCs, m.IOFaults, m.ErrP, m.Misbehave, m.Duplex, m.ServeP, m.NoInact, m.MetaP = 3, true, 0.2, 0.2, 0.2, 0, true, 0.3
 	case "C06":
-		m.MaxRPCs, m.Misbehave, m.CancelP, m.ErrP, m.ForceSoftC, m.StallP, m.StallHeals = 4, 0.7, 0.4, 0.3, 1, 0.2, true
+		m.MaxRPCs, m.Misbehave, m.CancelP, m.ErrP, m.ForceSoftC, m.StallP, m.StallHeals, m.MetaP = 4, 0.7, 0.4, 0.3, 1, 0.2, true, 0.4
 	case "C07":
 		m.MaxRPCs, m.MaxTasks, m.Duplex, m.CancelP, m.Misbehave, m.SmallNet, m.CloserP = 4, 3, 0.6, 0.4, 0.4, 0.6, 0.5
 	case "C10":
@@ -519,8 +520,8 @@ func (g *e1gen) rpc(idx int) *RPCSpec {
 		r.Meta = g.meta(idx)
 	}
 	r.ReqSize = g.size()
-	if r.ReqSize < 12 {
-		r.ReqSize = 12
+	if r.ReqSize < 12 || g.chance(0.5) {
+		r.ReqSize = 12 + g.pick(3) // similar sizes make the connection reuse its marshal buffer
 	}
 	r.Unknown = g.chance(m.UnknownP)
 	switch r.Shape {
@@ -576,6 +577,16 @@ func genE1(ch *Choices, mode E1Mode) *E1Prog {
 	p := &E1Prog{Cfg: g.cfg, Probe: mode.Probe}
 	n := 1 + g.pick(mode.MaxRPCs)
 	p.NTasks = 1 + g.pick(mode.MaxTasks)
+	// "unary storm": several goroutines issuing same-sized unary calls on one
+	// soft-cancel connection with early cancels (contention on everything a
+	// connection shares between calls)
+	storm := mode.StormP > 0 && g.chance(mode.StormP)
+	if storm {
+		p.Cfg.SoftC = true
+		g.cfg.SoftC = true
+		n = 4 + g.pick(3)
+		p.NTasks = 2 + g.pick(2)
+	}
 	for i := 0; i < n; i++ {
 		g.st = fmt.Sprintf("rpc%d", i)
 		// default (0) = slot absent, so that the minimiser can drop an rpc
@@ -584,6 +595,14 @@ func genE1(ch *Choices, mode E1Mode) *E1Prog {
 			continue
 		}
 		r := g.rpc(i)
+		if storm {
+			r2 := &RPCSpec{Idx: i, Shape: ShUnary, ReqSize: 13, Resp: 13, HRet: RetResp}
+			if g.chance(0.5) {
+				r2.Cancel = true
+				r2.CancelDelay = []int{0, 1, 2, 3, 4, 6, 8, 12}[g.pick(8)]
+			}
+			r = r2
+		}
 		r.Task = 0
 		if p.NTasks > 1 {
 			r.Task = g.pick(p.NTasks)
